@@ -3,7 +3,7 @@ pub fn pow(&self, exp: usize) -> UBig
 /*@ #[hoist(Self = UBig, Name = ubig_pow)]
     requires self.0.v() >= 0,                          // invariant of UBig
         pow_fits(self.0.v(), exp as int),              // resource: the result has up to nwords * exp words.  WITHOUT it
-                                                       // `exp * shift` below overflows: panic (debug) / wrap-around (release)
+                                                       // result does not fit into memory (then `exp.checked_mul(shift)` may fail: allocation panic)
     ensures ret.0.v() == ipow(self.0.v(), exp as int),
 @*/
 {
@@ -29,12 +29,16 @@ pub fn pow(&self, exp: usize) -> UBig
             }
         } @*/
         let result = if shift != 0 {
+            let total_shift = match exp.checked_mul(shift) {
+                Some(n) => n,
+                None => panic_allocate_too_much(),
+            };
             self.repr()
                 .shr(shift)
                 .as_typed()
                 .pow(exp)
                 .into_typed()
-                .shl(exp * shift)
+                .shl(total_shift)
         } else {
             self.repr().pow(exp)
         };
